@@ -29,6 +29,7 @@ type SubSpec struct {
 	User        int        `json:"user"`
 	Gated       bool       `json:"gated,omitempty"`    // Send needs credit from grant steps (else it always passes)
 	PElement    bool       `json:"pelement,omitempty"` // the prefix uses the deprecated string elements
+	Deadline    bool       `json:"deadline,omitempty"` // the stream's context carries a (distant) RPC deadline
 }
 
 // Upd is one update.
@@ -284,6 +285,7 @@ func genSub(pr profile, targets, users int) func(t *rapid.T) SubSpec {
 		}
 		s.User = rapid.IntRange(0, users-1).Draw(t, "user")
 		s.Gated = rapid.IntRange(0, 99).Draw(t, "gated") < pr.gatedPct
+		s.Deadline = rapid.IntRange(0, 3).Draw(t, "deadline") == 0
 		// origin: none / in the prefix / in the paths / (rarely) conflicting
 		where := rapid.SampledFrom([]string{"none", "none", "none", "none", "none", "none", "prefix", "prefix", "path", "path", "both", "path+pelems", "per-path", "per-path"}).Draw(t, "originwhere")
 		oname := rapid.SampledFrom([]string{"o", "o", "o", "openconfig"}).Draw(t, "origin-name")
@@ -381,6 +383,7 @@ func genBurstScenario(t *rapid.T) *Scenario {
 	for i := 0; i < nsubs; i++ {
 		sp := SubSpec{Mode: "stream", Target: rapid.IntRange(-1, sc.Targets-1).Draw(t, "target"), Gated: i == 0 || rapid.Bool().Draw(t, "gated")}
 		sp.UpdatesOnly = rapid.IntRange(0, 4).Draw(t, "updonly") == 0
+		sp.Deadline = rapid.IntRange(0, 2).Draw(t, "deadline") == 0
 		np := rapid.IntRange(1, 2).Draw(t, "npaths")
 		for j := 0; j < np; j++ {
 			sp.Paths = append(sp.Paths, PathSpec{Elems: genElems(t, 0, 1, true)})
